@@ -29,6 +29,14 @@ def run(ctx):
     # Layer 2: the engine's contribution tables and winding-count rule, transcribed and model-checked against Fill.tla
     ctab = core.tlc_ok(core.tlc("ContribTable", "ContribTable.cfg", timeout=300), "ContribTable"); ctx.add_tlc(ctab)
     ctx.extra["contrib_table_rows_checked"] = [o for o in ctab.outs][:1]
+    # optional strengthening, never part of the verdict: the same theorems for ALL integer windings, proved by TLAPS
+    try:
+        import re
+        pr = core.sh(["tlapm", "--toolbox", "0", "0", "ContribProofs.tla"], timeout=300, cwd=core.SPEC)
+        m = re.search(r"All (\d+) obligations? proved", (pr.stdout + pr.stderr).decode(errors="replace"))
+        ctx.extra["tlaps_contrib_table_all_integers"] = {"obligations_proved": int(m.group(1))} if m else {"not_proved": True}
+    except Exception as e:
+        ctx.extra["tlaps_contrib_table_all_integers"] = {"unavailable": str(e)[:200]}
     jobs = boolfam.run_jobs(ctx, jobs_for(ctx))
     boolfam.tally(ctx, jobs)
     boolfam.validate(ctx, jobs)
